@@ -456,6 +456,11 @@ func vGenContainer0(kind, shape int) (container, *vDesc) {
 			return vGenRunAnchored([]int{65512, 65528}) // may end exactly at 65535
 		case shape == 27:
 			return vGenRunAnchored([]int{0, 8}) // may start exactly at 0
+		case shape == 28:
+			return vGenRunAnchored([]int{64, 3000}) // ~2940 values: two of them sum to more than 4096, their union does not
+		case shape == 29:
+			// the same with concrete end points (converting a 3000-value bitmap chunk with symbolic words to an array forks per bit)
+			return &runContainer16{iv: []interval16{{64, 2936}}}, &vDesc{kind: vKRun, ivs: []vIv{{64, 2936}}}
 		}
 	case vKBitmap:
 		switch shape {
